@@ -177,19 +177,22 @@ def main(tier, seed, replay=None):
     rng = ck.rng
     virtual_layer(ck, ok, tier, rng)
     real_layer(ck, tier, rng)
-    return ck.finish(rule="real processes: an initiating process (own interpreter) starts 1-2 popen workers (thread / main_thread_only) with one of 11 activities (idle, blocked in receive, busy loop, sleeping, swallowing KeyboardInterrupt, extra daemon threads, a busy body outside the main thread, a callback sleeping while it holds the receive lock, an endless 1 MB transfer, an endless stream of small items with and without swallowing interrupts) and is SIGKILLed / exits / closes the connection after the workers reported their pids; every worker pid must be gone after t1 + t2 + slack. distinct = (activity, how, execmodel, workers).")
+    return ck.finish(rule="real processes: an initiating process (own interpreter) starts 1-2 popen workers (thread / main_thread_only) with one of 11 activities (idle, blocked in receive, busy loop, sleeping, swallowing KeyboardInterrupt, extra daemon threads, a busy body outside the main thread, a callback sleeping while it holds the receive lock, an endless 1 MB transfer, an endless stream of small items with and without swallowing interrupts) and is SIGKILLed / exits / closes the connection / calls Gateway.exit() and exits after the workers reported their pids; every worker pid must be gone after t1 + t2 + slack. distinct = (activity, how, execmodel, workers).")
 
 
 def real_layer(ck, tier, rng):
     acts = ["idle", "blocked", "busy", "sleeping", "swallow", "threads", "nonmain_busy", "lockholder", "transfer", "sender", "sender_swallow", "endmarker_raiser", "callback_sysexit", "nondaemon_thread", "inbound_transfer", "lockholder_inflight", "main_idle_other_blocked"]
-    hows = ["kill", "kill", "exit", "close"]
+    hows = ["kill", "kill", "exit", "close", "gwexit"]
     jobs = []
     if tier == "quick":
         for a in acts:
             jobs.append((a, rng.choice(hows), 1, rng.choice(["thread", "main_thread_only"]) if a not in ("nonmain_busy", "main_idle_other_blocked") else "thread"))
+        # the orderly end (Gateway.exit(), then the initiator is gone) against bodies that survive the interrupt
+        jobs.append(("swallow", "gwexit", 1, rng.choice(["thread", "main_thread_only"])))
+        jobs.append((rng.choice(["sender_swallow", "busy", "blocked"]), "gwexit", 1, rng.choice(["thread", "main_thread_only"])))
     else:
         for a in acts:
-            for h in ("kill", "exit", "close"):
+            for h in ("kill", "exit", "close", "gwexit"):
                 for em in ("thread", "main_thread_only"):
                     if a in ("nonmain_busy", "main_idle_other_blocked") and em != "thread":
                         continue
@@ -262,7 +265,7 @@ def real_layer(ck, tier, rng):
             ck.broke("correspondence", "c11-" + left[:60], ex)
             continue
         if left:
-            ck.fail("worker-outlives-its-initiator:%s:%s" % (a, em), {**ex, "pids_left": left})
+            ck.fail("worker-outlives-its-initiator:%s:%s%s" % (a, em, ":after-gateway-exit" if how == "gwexit" else ""), {**ex, "pids_left": left})
         ck.sample(ex)
     # the ladder model's prediction for every scenario
     try:
